@@ -1,6 +1,7 @@
 import DarkluaModel.C07.Model
 import DarkluaModel.Shared.VisitorSound
 import DarkluaModel.Rules.EvalLitSound
+import DarkluaModel.C06.LiftOn
 /-!
 # C06 — whole-rule theorems for the rules that only erase syntax (`remove_attribute`, `remove_types`)
 
@@ -194,5 +195,113 @@ theorem types_node_rel (e : Expr) :
   cases e with
   | fn body => exact ⟨.fn (R_clearFn body), .tNonLv rfl rfl⟩
   | _ => exact ⟨R.reflE _, R.reflT _⟩
+
+/-! ### `remove_types` as a whole
+
+The prefix hook is sound for the first value only, so the plain lifting theorem does not apply; the
+prefix-aware variant (`C06/LiftOn.lean`) does, with "`R`-related once parenthesised" as the relation for
+prefix positions: every constructor with a prefix child (`p.n`, `p[k]`, `p(...)`, `p:m(...)`, `p<<T>>`)
+uses the first value of `p` only, i.e. is exactly equal to the same node around `(p)`. -/
+
+section
+variable {N : NumOps} (call : CallFn N) (ρ : ExtOracle N) (k : Nat) (env : Env N)
+
+theorem field_paren (x : Expr) (n : String) (σ : State N) :
+    evalE call ρ k env (.field (.paren x) n) σ = evalE call ρ k env (.field x n) σ := by
+  simp only [evalE]
+  cases evalE call ρ k env x σ <;> simp [Res.bind, first]
+
+theorem index_paren (x i : Expr) (σ : State N) :
+    evalE call ρ k env (.index (.paren x) i) σ = evalE call ρ k env (.index x i) σ := by
+  simp only [evalE]
+  cases evalE call ρ k env x σ <;> simp [Res.bind, first]
+
+theorem call_paren (f : Expr) (m : Option String) (kd : ArgKind) (args : List Expr) (σ : State N) :
+    evalE call ρ k env (.call (.paren f) m kd args) σ = evalE call ρ k env (.call f m kd args) σ := by
+  cases m <;> simp only [evalE] <;> cases evalE call ρ k env f σ <;> simp [Res.bind, first]
+
+theorem inst_paren (x : Expr) (tys : List Ty) (σ : State N) :
+    evalE call ρ k env (.inst (.paren x) tys) σ = evalE call ρ k env (.inst x tys) σ := by
+  simp only [evalE]
+  cases evalE call ρ k env x σ <;> simp [Res.bind, first]
+
+theorem tfield_paren (x : Expr) (n : String) (σ : State N) :
+    evalTarget call ρ k env (.field (.paren x) n) σ = evalTarget call ρ k env (.field x n) σ := by
+  simp only [evalTarget, evalE]
+  cases evalE call ρ k env x σ <;> simp [Res.bind, first]
+
+theorem tindex_paren (x i : Expr) (σ : State N) :
+    evalTarget call ρ k env (.index (.paren x) i) σ = evalTarget call ρ k env (.index x i) σ := by
+  simp only [evalTarget, evalE]
+  cases evalE call ρ k env x σ <;> simp [Res.bind, first]
+end
+
+/-- `a` and `a'` are equal in denotation (both directions of an exact step) -/
+theorem R_of_eqE {a a' : Expr}
+    (h : ∀ (N : NumOps) (call : CallFn N) (ρ : ExtOracle N) (k : Nat) (env : Env N) (σ : State N),
+      evalE call ρ k env a' σ = evalE call ρ k env a σ) : R false (.e a) (.e a') :=
+  .stepE (fun N call ρ k env σ => .inr (h N call ρ k env σ)) (R.reflE _)
+
+theorem R_of_eqT {a a' : Expr}
+    (h : ∀ (N : NumOps) (call : CallFn N) (ρ : ExtOracle N) (k : Nat) (env : Env N) (σ : State N),
+      evalTarget call ρ k env a' σ = evalTarget call ρ k env a σ) : R false (.t a) (.t a') :=
+  .stepT (fun N call ρ k env σ => .inr (h N call ρ k env σ)) (R.reflT _)
+
+/-- prefix positions: related once parenthesised (= the first values are related) -/
+def firstFam : PFam (closureFam false) where
+  relP := fun x x' => R false (.e (.paren x)) (.e (.paren x'))
+  ofE := .paren
+  transP := .transE
+  call := fun {f f' m kd args args'} hf ha =>
+    .transE (R_of_eqE fun _ call ρ k env σ => call_paren call ρ k env f m kd args σ)
+      (.transE (.call hf (ClosureFam.es ha))
+        (R_of_eqE fun _ call ρ k env σ => (call_paren call ρ k env f' m kd args' σ).symm))
+  field := fun {x x' n} h =>
+    .transE (R_of_eqE fun _ call ρ k env σ => field_paren call ρ k env x n σ)
+      (.transE (.field h) (R_of_eqE fun _ call ρ k env σ => (field_paren call ρ k env x' n σ).symm))
+  index := fun {x x' i i'} h hi =>
+    .transE (R_of_eqE fun _ call ρ k env σ => index_paren call ρ k env x i σ)
+      (.transE (.index h hi) (R_of_eqE fun _ call ρ k env σ => (index_paren call ρ k env x' i' σ).symm))
+  inst := fun {x x' tys tys'} h =>
+    .transE (R_of_eqE fun _ call ρ k env σ => inst_paren call ρ k env x tys σ)
+      (.transE (.inst h) (R_of_eqE fun _ call ρ k env σ => (inst_paren call ρ k env x' tys' σ).symm))
+  tField := fun {x x' n} h =>
+    .transT (R_of_eqT fun _ call ρ k env σ => tfield_paren call ρ k env x n σ)
+      (.transT (.tField h) (R_of_eqT fun _ call ρ k env σ => (tfield_paren call ρ k env x' n σ).symm))
+  tIndex := fun {x x' i i'} h hi =>
+    .transT (R_of_eqT fun _ call ρ k env σ => tindex_paren call ρ k env x i σ)
+      (.transT (.tIndex h hi) (R_of_eqT fun _ call ρ k env σ => (tindex_paren call ρ k env x' i' σ).symm))
+
+theorem hooksOn_remove_types : HooksOn Guard.top (closureFam false) firstFam RemoveTypes.processor where
+  expr := fun e _ _ =>
+    ⟨R_of_eqE fun _ call ρ k env σ => types_expr_exact call ρ k env e σ, okE_top _⟩
+  pref := fun e _ _ =>
+    ⟨R_of_eqE fun _ call ρ k env σ => by
+      rw [eval_paren, eval_paren]; exact types_prefix_first call ρ k env e σ, okE_top _⟩
+  target := fun e _ _ => ⟨R.reflT e, okE_top _⟩
+  node := fun e _ _ => ⟨types_node_rel e, okE_top _⟩
+  afterNode := fun e _ => ⟨R.reflE e, R.reflT e⟩
+  stmt := fun x _ _ => ⟨R.reflS x, okS_top _⟩
+  stmtNode := fun x _ _ => ⟨types_stmtNode_rel x, okS_top _⟩
+  afterStmtNode := fun x _ => R.reflS x
+  last := fun x _ _ => ⟨R.reflL x, okL_top _⟩
+  block := fun b _ _ =>
+    ⟨.stepB (fun _ call ρ k env σ => .inr (types_block_exact call ρ k env b σ)) (R.reflB _), okB_top _⟩
+  afterBlock := fun b _ => R.reflB b
+  scopeB := fun b _ _ => ⟨R.reflB b, okB_top _⟩
+  scopeR := fun b c _ _ _ => ⟨⟨R.reflB b, R.reflE c⟩, okB_top _, okE_top _⟩
+  insert := fun _ _ => rfl
+  insertLocalName := fun _ _ _ => rfl
+  insertLocalVal := fun _ v _ => R.reflE v
+  insertLocalFn := fun _ _ => rfl
+
+/-- **`remove_types` as a whole** preserves the observable outcome (returned values, raised error,
+external-call trace) of EVERY program, for every number system / oracle / call budget. -/
+theorem remove_types_refines_lift (b : Block) {N : NumOps} (ρ : ExtOracle N) (n : Nat)
+    (externs : List String) :
+    runProgram ρ n externs (RemoveTypes.apply b) = runProgram ρ n externs b :=
+  runProgram_rel ρ n externs
+    (show R false (.b b) (.b (RemoveTypes.apply b)) from
+      visit_rel_on hooksOn_remove_types false _ true b () (okB_top b))
 
 end DarkluaModel.C06
